@@ -42,6 +42,7 @@ func LoadRepoWorld(repo string) (*RepoWorld, error) {
 	w.ExternalPolicy = func(full string) CallKind { return CallFresh }
 	w.DynamicPolicy = func(e *FuncEnc, in ssa.Instruction, name string) CallKind { return CallHavoc }
 	w.computeFSStable()
+	LCFacts(w)
 	return rw, nil
 }
 
